@@ -18,8 +18,11 @@ EXTRA = {
                           [['last_acquisition_index', 5], ['main_target', 4], ['reference_offset', 2]],
                           [['last_acquisition_index', 5], ['main_target', 4], ['secondary_target', 3]],
                           [['last_acquisition_index', 5], ['main_target', 4]],
-                          [['last_acquisition_index', 5]]],
-    'LogicalObservableOperation': [[['last_acquisition_index', 5], ['main_target', 4]], [['last_acquisition_index', 7], ['main_target', 2]]],
+                          [['last_acquisition_index', 5]],
+                          [['last_acquisition_index', 0], ['main_target', 0]],
+                          [['last_acquisition_index', 1], ['main_target', 0], ['secondary_target', 1], ['reference_offset', 1]]],
+    'LogicalObservableOperation': [[['last_acquisition_index', 5], ['main_target', 4]], [['last_acquisition_index', 7], ['main_target', 2]],
+                                   [['last_acquisition_index', 0], ['main_target', 0]], [['last_acquisition_index', 3], ['main_target', 0]]],
     'CoordinateShiftOperation': [[['space_shift', 0], ['time_shift', 1]], [['space_shift', 2], ['time_shift', 0]]],
 }
 
